@@ -5,6 +5,7 @@ draws from the "net" choice stream.  The fake `socket`, `os`, `poll` objects exp
 bottom are what sim.patch installs into rpyc's module globals.
 """
 import errno
+import weakref
 import socket as _rs
 import types
 import os as _ros
@@ -256,6 +257,8 @@ class SockObj(object):
         k, d = self._chk()
         if d.kind != "stream" or d.raddr is None:
             raise _err(E.ENOTCONN)
+        if d.family != _rs.AF_UNIX and d.rx is not None and d.rx.rst and not d.rx.inflight:
+            raise _err(E.ENOTCONN)      # a TCP socket that has received a reset is in state CLOSE: no peer any more
         return d.raddr
 
     # naming ----------------------------------------------------------------------------
@@ -640,13 +643,52 @@ class Poll(object):
         return self._scan(k)
 
 
+class _FdTable(object):
+    """descriptor table that does not keep the Python socket objects alive (the real kernel does not either)"""
+
+    def __init__(self):
+        self._d = {}
+
+    def __contains__(self, fd):
+        return self.get(fd) is not None
+
+    def __setitem__(self, fd, so):
+        self._d[fd] = weakref.ref(so)
+
+    def __getitem__(self, fd):
+        so = self.get(fd)
+        if so is None:
+            raise KeyError(fd)
+        return so
+
+    def __delitem__(self, fd):
+        del self._d[fd]
+
+    def get(self, fd, default=None):
+        r = self._d.get(fd)
+        so = r() if r is not None else None
+        return so if so is not None else default
+
+    def items(self):
+        return [(fd, so) for fd, so in ((fd, r()) for fd, r in sorted(self._d.items())) if so is not None]
+
+    def values(self):
+        return [so for fd, so in self.items()]
+
+    def __iter__(self):
+        return iter([fd for fd, so in self.items()])
+
+    def __len__(self):
+        return len(self.items())
+
+
 class Kernel(object):
     def __init__(self, sim, cfg=None):
         self.sim = sim
         sim.kernel = self
         self.cfg = cfg or NetCfg()
         self.st = sim.choices.stream("net")
-        self.fds = {}
+        self.fds = _FdTable()      # fd -> socket object, held weakly: an object dropped without close() is closed by its finalizer
         self.listeners = {}
         self.udp = {}
         self.pipes = []
@@ -672,7 +714,7 @@ class Kernel(object):
     def alloc_fd(self, so):
         fd = 3
         fds = self.fds
-        while fd in fds:
+        while fd in fds._d:
             fd += 1
         fds[fd] = so
         if fd > self.fd_high:
@@ -680,7 +722,8 @@ class Kernel(object):
         return fd
 
     def free_fd(self, fd, so):
-        if self.fds.get(fd) is so:
+        r = self.fds._d.get(fd)
+        if r is not None and (r() is so or r() is None):
             del self.fds[fd]
 
     def open_fds(self):
